@@ -179,7 +179,7 @@ def record_one(inst):
     for e in ev:
         counts[e["ev"]] = counts.get(e["ev"], 0) + 1
     ret = [e for e in ev if e["ev"] in ("Return", "Raise", "Hang")]
-    summ = dict(outcome=out["outcome"], nev=len(ev), counts=counts, initrepair=out["run"].initrepair or "")
+    summ = dict(outcome=out["outcome"], nev=len(ev), counts=counts, initrepair=out["run"].initrepair or "", growsafety="yes" if out["run"].growsafety else "no")
     if ret and ret[-1]["ev"] == "Return":
         r = ret[-1]
         summ.update(flag=r["flag"], msgc=r["msgc"], nf=r["nf"], nruns=r["nruns"], jacok=r.get("jacok"), jacerr=r.get("jacerr"))
